@@ -48,6 +48,14 @@ CLAIMED = {
   text="Bounded symbolic execution of the real shaped write path (Conn.Write, WriteDefaultBuckets, GetNextActionFromByte/Index, GetCurrentThrottle, CheckExistenceAndValidity, Bucket.FillThrottleLocked/SetCapacity, parseShapes, getActionsFromThrottles, Handler.ServeHTTP, Listener.GetTrafficShapedConn, Conn.Close) from SSA. The halt, close and throttle byte offsets and the range start are symbolic 64-bit integers, the response is written as head + symbolic body in every split into up to three writes: z3 decides every relation between offsets, range start and write boundaries. Asserted: delivered bytes are a prefix of what was written and Write returns their count; a close action at offset k delivers head + exactly k - rangeStart body bytes and then ErrForceClose; a halt sleeps at least its duration; binary searches agree with a linear scan; JSON configurations with symbolic throttle bounds are accepted iff valid, rejected ones leave shapes/defaults/capacities/modification time untouched, an earlier connection keeps its view; closing a connection closes the buckets created for it.",
   note="Bounds: offsets in [0,4] (quick) / [0,6] (thorough), body 3 / 4 bytes, head 2 bytes, up to two (quick) or three (thorough) of halt/close/throttle at once, one shape. The bucket drain goroutine is replaced by a model (drain when a writer would spin; thorough: also at any earlier check); tickers never fire; time.Sleep is recorded, wall-clock rates are outside the claim. The URL-match in proxy.go that selects the shape is not part of this check. Trusted: go/ssa, symgo, z3.",
   ref="DESIGN.md section 6, C18"),
+ "C15": dict(
+  text="Bounded symbolic execution of the real messageview snapshot/readers, har.Logger.ModifyRequest/Response (incl. postData, NewResponse), marbl.Modifier/Stream.LogRequest/bodyLogger (with the stream goroutine under the engine scheduler) and martianlog.Logger from SSA, with net/http's own header/chunk code executed for real. Body bytes are symbolic; framing, content coding, content type, trailers, logger options and the skip-logging mark are enumerated. Asserted after every logger/snapshot: header and trailer maps, ContentLength, TransferEncoding, Close unchanged and the body yields the original bytes then EOF (marbl: the wrapper returns the same (n, err) sequence and bytes as the wrapped body for scripted reads); the snapshot equals a reference serialisation written from the message fields and its three readers partition it; decoded body = content; skip-logging produces no HAR entry, no marbl frame, no log line; loggers return no error.",
+  note="Bounds: bodies of 0..1 (quick) / 0..3 (thorough) symbolic bytes; framings Content-Length, chunked (with/without declared trailers), unknown length; codings identity/gzip/deflate/unknown; marbl: up to 2 (quick) / 3 (thorough) scripted reads. gzip/deflate are the engine's tagged codec model (real codecs in native replay). Known finding: missing empty line after declared trailers in snapshots (pinned by the repo's tests). Trusted: go/ssa, symgo, z3.",
+  ref="DESIGN.md section 6, C15"),
+ "C16": dict(
+  text="Bounded symbolic execution of the real har.NewRequest/NewResponse/postData/headers/cookies, proxyutil.Header.Map/All, PostData and Content (Un)MarshalJSON and the logging option predicates from SSA (net/url, mime, cookie and chunk code executed for real). Request bodies are symbolic bytes or a form key=value with symbolic characters; response bodies are symbolic under three framings and identity/gzip/deflate coding. Asserted: method, URL, version, header list incl. Host / Content-Length / Transfer-Encoding / multi-valued headers, query parameters, cookies, redirect URL; post data = the body as the origin receives it (un-chunked, not content-decoded), parsed into parameters for form bodies; response content = the fully decoded body with its true size; capture follows the option predicates; PostData and Content survive Marshal->Unmarshal exactly over an alphabet of quotes, control bytes, valid multi-byte and invalid UTF-8 sequences.",
+  note="Bounds: bodies of 0..2 (quick) / 0..4 (thorough) symbolic bytes; form value 0..2 symbolic characters; JSON strings of <=2 (quick) / <=3 (thorough) bytes over a 13-byte alphabet (enumerated, not symbolic: json.Marshal runs the real encoder on natively rebuilt concrete values, json.Unmarshal is the engine's decoder model). Multipart bodies are not covered. Trusted: go/ssa, symgo, z3.",
+  ref="DESIGN.md section 6, C16"),
 }
 
 NOT_YET = "check not built yet in this round; planned with the same technique (DESIGN.md section 6)"
